@@ -396,7 +396,7 @@ func TestVerif_C02_Templates(t *testing.T) {
 			for fa := 0; fa < 4; fa++ {
 				for fb := 0; fb < 4; fb++ {
 					for order := 0; order < 2; order++ {
-						if kit.Tier() == "quick" && (si+fa+fb+order+ni)%2 == 1 && fa == fb {
+						if kit.Tier() == "quick" && (si+fa+fb+order+ni)%2 == 1 {
 							continue
 						}
 						for ei, e := range ents {
